@@ -152,8 +152,7 @@ class MultivariateNormalPrior(Prior, MultivariateNormal):
 
     def expand(self, batch_shape):
         batch_shape = torch.Size(batch_shape)
-        cov_shape = batch_shape + self.event_shape
-        new_loc = self.loc.expand(batch_shape)
-        new_scale_tril = self.scale_tril.expand(cov_shape)
+        new_loc = self.loc.expand(batch_shape + self.event_shape)
+        new_scale_tril = self.scale_tril.expand(batch_shape + self.event_shape + self.event_shape)
 
         return MultivariateNormalPrior(loc=new_loc, scale_tril=new_scale_tril)
